@@ -26,7 +26,8 @@ CONSTANTS
     CheckFinalPrefix,    \* final sanity check: joined path does not start with the directory string
     PlusOne,             \* length of first-last is last - first + 1
     UnsatGe,             \* first >= size is unsatisfiable (wrong design: first > size)
-    ImsLe                \* not modified iff last_modified <= if_modified_since (wrong design: <)
+    ImsLe,               \* not modified iff last_modified <= if_modified_since (wrong design: <)
+    ImsLocalTime         \* wrong design: If-Modified-Since is converted through the process's local time
 
 (* ------------------------------------------------------------------------------------- *)
 (* atoms and strings                                                                      *)
@@ -161,7 +162,9 @@ FinalReject(fp) == \/ (CheckFinalDots /\ Occurs(fp, DD))
      fb    "none" | "in" (a file inside the root) | "out" (an absolute path outside the root)
      head  "under" (prefix + "/" + remainder) | "bare" (the prefix without its trailing slash, remainder empty)
      range [k |-> "none"|"fl"|"f"|"s"|"unit"|"bad", a |-> first or suffix length, b |-> last]
-     ims   "none" | "earlier" | "equal" | "later" | "bad"                                              *)
+     ims   [k |-> "none" | "bad" | "date", d |-> If-Modified-Since minus the file's modification time
+            truncated to whole seconds, both as UTC instants, in seconds]
+     zone  the time zone of the serving process (an environment dimension: no outcome may depend on it)    *)
 NoServe(opens) == [file |-> FAIL, opens |-> opens]
 Serve(c) ==
     LET hasfb == c.fb # "none" IN
@@ -202,15 +205,34 @@ RangeDesign(C, r) ==
                            ELSE IF n = 0 THEN Full(C)           \* ZeroSizeIgnoresRange
                            ELSE LET start == Max(-r.a, -n) IN Part(n + start, -start, <<n + start, n - 1, n>>)
 
-NotModified(ims) == IF ImsLe THEN ims \in {"equal", "later"} ELSE ims = "later"
+(* the process time zones the harness runs under; offset east of UTC in seconds at the two modification
+   times the harness uses (September 2001, January 2002) *)
+AllZones == {"UTC", "Etc/GMT+5", "XXX5", "America/New_York", "Asia/Tokyo", "YYY-9", "Pacific/Kiritimati",
+             "Pacific/Pago_Pago"}
+ZoneOffsets(z) == CASE z = "UTC" -> <<0, 0>>
+                    [] z \in {"Etc/GMT+5", "XXX5"} -> <<-18000, -18000>>
+                    [] z = "America/New_York" -> <<-14400, -18000>>
+                    [] z \in {"Asia/Tokyo", "YYY-9"} -> <<32400, 32400>>
+                    [] z = "Pacific/Kiritimati" -> <<50400, 50400>>
+                    [] z = "Pacific/Pago_Pago" -> <<-39600, -39600>>
+NoIms == [k |-> "none", d |-> 0]
+(* ReadsUtcTupleAsLocalTime (wrong design): mktime() of the UTC fields gives the instant minus the offset *)
+NotModified(c) ==
+    /\ c.ims.k = "date"
+    /\ LET d == IF ImsLocalTime THEN c.ims.d - ZoneOffsets(c.zone)[1] ELSE c.ims.d
+       IN  IF ImsLe THEN d >= 0 ELSE d > 0
 
 RespFor(f, c) ==
-    IF c.ims = "bad" THEN Err(400)
-    ELSE IF NotModified(c.ims) THEN Resp(304, <<>>, NoCR, -1)
+    IF c.ims.k = "bad" THEN Err(400)
+    ELSE IF NotModified(c) THEN Resp(304, <<>>, NoCR, -1)
     ELSE RangeDesign(Content(f), c.range)
 
+(* lm: Last-Modified minus the file's modification time truncated to seconds (UTC instants); projected for
+   200/206/304 only *)
+NoLM == -999999999
 Obs(resp, opens) == [status |-> resp.status, body |-> resp.body, cr |-> resp.cr, clen |-> resp.clen,
-                     opens |-> opens, exc |-> FALSE]
+                     opens |-> opens, exc |-> FALSE,
+                     lm |-> IF resp.status \in {200, 206, 304} THEN 0 ELSE NoLM]
 Expected(c) == LET s == Serve(c) IN
                IF s.file = FAIL THEN Obs(Err(404), s.opens) ELSE Obs(RespFor(s.file, c), s.opens)
 
@@ -252,9 +274,13 @@ RespVerdict(f, c, o) ==
                   ELSE IF o.cr # NoCR THEN "P:content-range"
                   ELSE IF o.clen \notin {-1, n} THEN "P:content-length"
                   ELSE "ok"
-    IN  IF o.status \notin {200, 206, 304, 400, 416} THEN "P:status"
-        ELSE IF o.status = 400 THEN (IF c.ims = "bad" \/ rk = "bad" THEN "ok" ELSE "P:status")
-        ELSE IF c.ims \in {"equal", "later"}
+        (* a validator, when one is sent, is the file's modification time: a client that echoes it back must
+           get 304 *)
+        LastModifiedOK == IF o.status \in {200, 206, 304} /\ o.lm \notin {0, NoLM} THEN "P:last-modified" ELSE "ok"
+        Rest ==
+        IF o.status \notin {200, 206, 304, 400, 416} THEN "P:status"
+        ELSE IF o.status = 400 THEN (IF c.ims.k = "bad" \/ rk = "bad" THEN "ok" ELSE "P:status")
+        ELSE IF c.ims.k = "date" /\ c.ims.d >= 0
              THEN (IF o.status # 304 THEN "P:304" ELSE IF o.body # <<>> THEN "P:304-body" ELSE "ok")
         ELSE IF o.status = 304 THEN "P:304"
         ELSE CASE rk \in {"full", "bad"} -> FullOK
@@ -266,6 +292,7 @@ RespVerdict(f, c, o) ==
                                   ELSE IF o.cr # <<se[1], se[2], n>> THEN "P:content-range"
                                   ELSE IF o.clen # se[2] - se[1] + 1 THEN "P:content-length"
                                   ELSE "ok"
+    IN  IF Rest # "ok" THEN Rest ELSE LastModifiedOK
 
 PVerdict(c, o) ==
     IF o.exc THEN "P:exception"
@@ -284,6 +311,7 @@ DVerdict(c, o) ==
     ELSE IF o.status \in {200, 206, 304} /\ o.body # e.body THEN "D:body"
     ELSE IF o.cr # e.cr THEN "D:content-range"
     ELSE IF o.status \in {200, 206, 304} /\ o.clen # e.clen THEN "D:content-length"
+    ELSE IF o.lm # e.lm THEN "D:last-modified"
     ELSE "ok"
 
 Verdict(c, o) == LET p == PVerdict(c, o) IN IF p # "ok" THEN p ELSE DVerdict(c, o)
